@@ -60,6 +60,9 @@ def cases_for(rng, tier):
     for i in range(n):
         modes, msgs = gen_dispatch(rng, rng.randint(1, 6), 40)
         cases.append(dict(kind="dispatch", client="sync" if i % 2 == 0 else "async", requests=[dict(mode=m) for m in modes], messages=msgs))
+        if i % 2 == 1:
+            # the asynchronous publish may return late (QoS 1): responses arriving meanwhile belong to the request all the same
+            cases[-1]["publish_yields"] = rng.choice([0, 0, 1, 3, 8])
     # exhaustive interleavings of two short response sequences
     a = [dict(cd=0, code="Continue", payload="/a"), dict(cd=0, code="Ok", payload="")]
     b = [dict(cd=1, code="Continue", payload="/b"), dict(cd=1, code="Error", payload="no")]
